@@ -555,8 +555,9 @@ Definition raw_value (c : card) : str :=
   | Commentary _ _ => []
   end.
 
-(* fitsio.h "remove stupid quotes mandated by FITS": strip one leading quote and, if the last character is a quote
-   and the string is longer than 1, that one too *)
+(* fitsio.h 262-266 "remove stupid quotes mandated by FITS": for a value that begins with a quote, the last character is
+   cut off when it is a quote too and at least two characters are there (valuelen>2 && value[valuelen-2]=='\''), and the
+   stored text begins after the opening quote (stored = value+1) *)
 Definition strip_quotes (v : str) : str :=
   match v with
   | c :: r =>
@@ -569,9 +570,56 @@ Definition strip_quotes (v : str) : str :=
   | [] => []
   end.
 
+(* fitsio.h 269-275, the un-doubling loop   for(in=stored; *in; in++){ if(in[0]=='\'' && in[1]=='\'') in++; *out++=*in; }
+   a quote followed by a quote yields one quote and both are consumed; any other character — a quote that is followed by
+   something else or by the terminating NUL included — is copied.  (Also what cfitsio's ffc2s does, which fits_movnam_hdu
+   applies to EXTNAME / HDUNAME: see string_value below.) *)
+Fixpoint unescape_quotes (s : str) : str :=
+  match s with
+  | c :: r => if c =? quote then
+                match r with
+                | c2 :: r2 => if c2 =? quote then quote :: unescape_quotes r2 else c :: unescape_quotes r
+                | [] => [c]
+                end
+              else c :: unescape_quotes r
+  | [] => []
+  end.
+
+(* fitsio.h 262-279: the text stored as aux[i][1] for the raw value fits_read_keyn returned.
+     char* stored = value;
+     if(valuelen>1 && value[0]=='\''){ <strip_quotes>; <un-doubling loop over stored, in place> }
+     aux[i][1] = copy of stored
+   A value that does not begin with a quote (a number, a logical, the empty value of a commentary card) is stored as it
+   is.  Blanks are not touched: the padding cfitsio adds up to 8 characters was inside the quotes and stays; since the
+   doubled quotes counted towards those 8 characters, a value with q quotes and fewer than 8 - q other characters comes
+   back with 8 - length - q trailing blanks. *)
+Definition aux_value (v : str) : str :=
+  match v with
+  | c :: _ => if c =? quote then unescape_quotes (strip_quotes v) else v
+  | [] => []
+  end.
+
 Definition aux_of_cards (cs : list card) : list (str * str) :=
   flat_map (fun c => let k := card_key c in
-                     if key_legal k && negb (reserved k) then [(k, strip_quotes (raw_value c))] else []) cs.
+                     if key_legal k && negb (reserved k) then [(k, aux_value (raw_value c))] else []) cs.
+
+(* ------------------------------------------------------------------------------------------------ *)
+(* L1: what write_key (aux.h 84-159) decides from the LENGTHS of a key and a value, and from the reserved list.
+   (Its alphabet checks — upper case / digits for short keys, no '=', lower case, non-printables, outer blanks or a
+   leading "HIERARCH " for long keys, printable values — are C16's subject: AuxModel.check_key; C06_AuxTie.v proves that
+   on keys and values passing those checks AuxModel.accepts = (write_key_offer = Stored).)
+     reservedFitsKeyword(key)                                   -> throw "Cannot set key with reserved name"
+     maxdatalen = 68;  if(keylen-1 > 8){ ... if(keylen-1>66) throw ...; maxdatalen=80-(13+keylen-1); }
+     encodedlen = (valuelen-1) + count(valuedata, '\'')          every quote is doubled on the card
+     if(encodedlen>maxdatalen) throw "Value is too long to be stored as a FITS keyword" *)
+Definition encoded_len (v : str) : nat := (length v + length (filter (fun c => (c =? quote)%N) v))%nat.
+Definition max_data_len (k : str) : nat := if (length k <=? 8)%nat then 68%nat else (80 - (13 + length k))%nat.
+Inductive offer := Stored | RefusedReserved | RefusedLongKey | RefusedTooLong.
+Definition write_key_offer (k v : str) : offer :=
+  if reserved k then RefusedReserved
+  else if negb (length k <=? 8)%nat && (66 <? length k)%nat then RefusedLongKey
+  else if (max_data_len k <? encoded_len v)%nat then RefusedTooLong
+  else Stored.
 
 (* fits_read_key: first card whose keyword name equals name (names are upper case in the file) *)
 Fixpoint find_card (name : str) (cs : list card) : option card :=
@@ -618,18 +666,7 @@ Fixpoint partial_products (acc : N) (l : list N) : list N :=
 Definition read_strides (axes : list N) : list N := List.rev (1 :: partial_products 1 (removelast axes)).
 
 (* fits_movnam_hdu(IMAGE_HDU, name, 0): first HDU (primary included) of image type whose EXTNAME (else HDUNAME),
-   with quotes undone and trailing blanks removed, equals name ignoring case *)
-Fixpoint unescape_quotes (s : str) : str :=
-  match s with
-  | c :: r => if c =? quote then
-                match r with
-                | c2 :: r2 => if c2 =? quote then quote :: unescape_quotes r2 else c :: unescape_quotes r
-                | [] => [c]
-                end
-              else c :: unescape_quotes r
-  | [] => []
-  end.
-
+   with quotes undone (unescape_quotes, above) and trailing blanks removed, equals name ignoring case *)
 Definition string_value (c : card) : option str :=
   match c with
   | Card _ (VStr raw) => Some (strip_trailing (unescape_quotes raw))
